@@ -682,4 +682,99 @@ theorem genLoop_length_ge (sum vb pps : Int) (spec : VestSpec) (hu : 0 < spec.qu
         have := ih _ _ rest (k - 1) (by omega) (targetAt_lt_sum hsum (by omega) hlt) (by omega) hr
         simp; omega
 
+/-! ### the forced unlock -/
+
+/-- specification of "take `target` out of the table, earliest entries first": entries are
+    removed whole while they are smaller than what is still to take, the next one is reduced -/
+def consume : Int → Table → Table
+  | _, [] => []
+  | target, (e, a) :: t => if a < target then consume (target - a) t else (e, a - target) :: t
+
+theorem tsum_nonneg {t : Table} (h : NonNeg t) : 0 ≤ tsum t := by
+  induction t with
+  | nil => simp
+  | cons p t ih =>
+    have := h p (by simp)
+    have := ih (nonneg_tail h)
+    simp; omega
+
+theorem consume_zero {t : Table} (h : NonNeg t) : consume 0 t = t := by
+  cases t with
+  | nil => rfl
+  | cons p t =>
+    obtain ⟨e, a⟩ := p
+    have : 0 ≤ a := h (e, a) (by simp)
+    simp [consume]
+    omega
+
+theorem slowLoop_conserves (cur : Int) (t : Table) : ∀ (target v u : Int),
+    (slowLoop cur t target v u).2.1 + (slowLoop cur t target v u).2.2 +
+      tsum (slowLoop cur t target v u).1 = v + u + tsum t := by
+  induction t with
+  | nil => intro target v u; simp [slowLoop]
+  | cons p t ih =>
+    intro target v u
+    obtain ⟨e, a⟩ := p
+    by_cases h1 : e < cur
+    · simp only [slowLoop, h1, if_true]; rw [ih]; simp; omega
+    · by_cases h2 : a < target
+      · simp only [slowLoop, h1, h2, if_true, if_false]; rw [ih]; simp; omega
+      · simp [slowLoop, h1, h2]; omega
+
+theorem slowLoop_wf (cur : Int) (t : Table) : ∀ (target v u : Int), Sorted t → NonNeg t →
+    Sorted (slowLoop cur t target v u).1 ∧ NonNeg (slowLoop cur t target v u).1 := by
+  induction t with
+  | nil => intro target v u hs hn; simp [slowLoop]; exact ⟨List.Pairwise.nil, fun p hp => absurd hp (by simp)⟩
+  | cons p t ih =>
+    intro target v u hs hn
+    obtain ⟨e, a⟩ := p
+    by_cases h1 : e < cur
+    · simp only [slowLoop, h1, if_true]; exact ih _ _ _ (sorted_tail hs) (nonneg_tail hn)
+    · by_cases h2 : a < target
+      · simp only [slowLoop, h1, h2, if_true, if_false]; exact ih _ _ _ (sorted_tail hs) (nonneg_tail hn)
+      · simp only [slowLoop, h1, h2, if_false]
+        constructor
+        · exact List.pairwise_cons.mpr ⟨fun q hq => sorted_head hs q hq, sorted_tail hs⟩
+        · intro q hq
+          cases List.mem_cons.mp hq with
+          | inl h => subst h; simp; omega
+          | inr h => exact nonneg_tail hn q h
+
+/-- on a sorted non-negative table and for a non-negative target the loop returns exactly the
+    vested amount, `min target (unvested amount)`, and leaves the unvested entries consumed
+    earliest-first -/
+theorem slowLoop_exact (cur : Int) (t : Table) : ∀ (target v u : Int), Sorted t → NonNeg t →
+    0 ≤ target →
+    (slowLoop cur t target v u).2.1 = v + tsum (vestedPart cur t) ∧
+    (slowLoop cur t target v u).2.2 = u + min target (tsum (unvestedPart cur t)) ∧
+    (slowLoop cur t target v u).1 = consume target (unvestedPart cur t) := by
+  induction t with
+  | nil => intro target v u _ _ ht; simp [slowLoop, vestedPart, unvestedPart, consume]; omega
+  | cons p t ih =>
+    intro target v u hs hn ht
+    obtain ⟨e, a⟩ := p
+    have ha : 0 ≤ a := hn (e, a) (by simp)
+    by_cases h1 : e < cur
+    · obtain ⟨i1, i2, i3⟩ := ih target (v + a) u (sorted_tail hs) (nonneg_tail hn) ht
+      simp only [slowLoop, h1, if_true]
+      simp [vestedPart, unvestedPart, h1] at i1 i2 i3 ⊢
+      exact ⟨by omega, i2, i3⟩
+    · obtain ⟨v1, v2⟩ := vestedPart_of_head_ge hs h1
+      have v3 : vestedPart cur t = [] := by
+        have := v1; simp [vestedPart, h1] at this ⊢; exact this
+      have v4 : unvestedPart cur t = t := by
+        have := v2; simp [unvestedPart, h1] at this ⊢; exact this
+      have hts : 0 ≤ tsum t := tsum_nonneg (nonneg_tail hn)
+      by_cases h2 : a < target
+      · obtain ⟨i1, i2, i3⟩ := ih (target - a) v (u + a) (sorted_tail hs) (nonneg_tail hn) (by omega)
+        simp only [slowLoop, h1, h2, if_true, if_false]
+        rw [v1, v2]; rw [v3] at i1; rw [v4] at i2 i3
+        refine ⟨by simpa using i1, ?_, ?_⟩
+        · rw [i2]; simp only [tsum_cons]; omega
+        · rw [i3]; simp [consume, h2]
+      · simp only [slowLoop, h1, h2, if_false]
+        rw [v1, v2]
+        refine ⟨by simp, ?_, by simp [consume, h2]⟩
+        simp only [tsum_cons]; omega
+
 end BA.Vesting
